@@ -27,6 +27,30 @@ def alternatives(mm: MetaModel, tau: Dict, depth: int = 0) -> List[Dict]:
     return [t]
 
 
+def _custom_enum_variants(mm: MetaModel, t: Dict, depth: int = 0) -> List[Any]:
+    k = t["kind"]
+    if depth > 4:
+        return []
+    if k == "reference":
+        n = t["name"]
+        if n in mm.enumerations and mm.is_open_enum(n):
+            e = mm.enumerations[n]
+            vals = [v["value"] for v in e["values"]]
+            cands = ["x-custom-value"] if e["type"]["name"] == "string" else [7, 4242]
+            return [c for c in cands if c not in vals][:1]
+        if n in mm.aliases and n not in ("LSPAny", "LSPObject", "LSPArray"):
+            return _custom_enum_variants(mm, mm.aliases[n]["type"], depth + 1)
+        return []
+    if k == "array":
+        return [[x] for x in _custom_enum_variants(mm, t["element"], depth + 1)]
+    if k == "or":
+        out: List[Any] = []
+        for it in t["items"]:
+            out.extend(_custom_enum_variants(mm, it, depth + 1))
+        return out[:1]
+    return []
+
+
 def object_variants(mm: MetaModel, t: Dict) -> List[Any]:
     """minimal, maximal, minimal + each single optional property."""
     out = [mm.witness(t, False), mm.witness(t, True)]
@@ -44,6 +68,11 @@ def object_variants(mm: MetaModel, t: Dict) -> List[Any]:
                     v = dict(base)
                     v[p["name"]] = mm.witness(p["type"], mx, 1)
                     out.append(v)
+            # a custom value at every open-enumeration position of the property
+            for cv_ in _custom_enum_variants(mm, p["type"]):
+                v = dict(base)
+                v[p["name"]] = cv_
+                out.append(v)
             # each alternative of a union-typed property (required ones too)
             alts = alternatives(mm, p["type"])
             if len(alts) > 1:
